@@ -4,6 +4,8 @@ import (
 	"bytes"
 	"encoding/binary"
 	"fmt"
+	"os"
+	"path/filepath"
 	"strings"
 
 	"github.com/Eyevinn/mp4ff/bits"
@@ -12,7 +14,7 @@ import (
 
 func init() {
 	props["C12"] = &propDef{
-		rule: "cases = generated fragmented files: 1..3 tracks (video and/or audio, any order), 1..6 segments x 1..4 fragments, 8- or 16-byte mdat headers, decoded through the io.Reader or the slice-reader path, delimiters {none, styp per segment, top-level sidx (version 0/1, with/without a free box after it), mfra/tfra with the ISM flag, start-on-moof flag}, emsg boxes before fragments, zero/non-zero composition offset on the first sample; checks: grouping of moof/mdat pairs into segments, segment-mode re-encoding byte-identical, and after UpdateSidx(add/not, zero/non-zero EPT) + Encode the index tiles the media (each reference starts at its segment's first byte, ends at the end of the media, durations = summed durations of the reference track); non-trivial = distinct file with >= 2 segments",
+		rule: "cases = generated fragmented files: 1..3 tracks (video and/or audio, any order), 1..6 segments x 1..4 fragments, 8- or 16-byte mdat headers, decoded through the io.Reader or the slice-reader path, delimiters {none, styp per segment, top-level sidx (version 0/1, with/without a free box after it, with the 8- or the 16-byte largesize box header, with 0..12 trailing bytes inside the box), mfra/tfra with the ISM flag, start-on-moof flag}, emsg boxes before fragments, zero/non-zero composition offset on the first sample; checks: grouping of moof/mdat pairs into segments, segment-mode re-encoding byte-identical, and after UpdateSidx(add/not, zero/non-zero EPT) + Encode the index tiles the media (each reference starts at its segment's first byte, ends at the end of the media, durations = summed durations of the reference track); plus the examples/add-sidx binary (built into $VERIF_BUILD/tools/add-sidx) on files of the same family written to disk, three quarters of them with saiz+saio+senc (with/without sub-samples) or PIFF uuid-senc boxes in the trafs of some or all tracks, x options {-removeEnc, -nzEPT, -startSegOnMoof}: the index in the written file is checked against the top-level boxes of the written file (same tiling/duration/EPT clauses; init, mdat and - without -removeEnc - moof boxes byte-identical and in order); non-trivial = distinct file with >= 2 segments, or distinct successful tool run",
 		gen:  genC12,
 		exec: execC12,
 	}
@@ -30,11 +32,18 @@ type ffSpec struct {
 	flagSOM bool   // DecStartOnMoof
 	largeMd bool   // every fragment's mdat carries the 16-byte largesize header
 	sr      bool   // decode through the slice-reader path (DecodeFileSR)
+	sidxLg  bool   // the top-level sidx carries the 16-byte largesize header (size32 == 1)
+	sidxPad int    // trailing bytes inside the sidx box after its last reference (covered by the box size)
+	enc     string // per track: '-' no encryption boxes in its trafs, 'c' saiz+saio+senc (8-byte IVs), 's' the same with sub-samples, 'u' PIFF uuid-senc ("" = none)
 }
 
 func (s *ffSpec) line() string {
 	var p []string
-	p = append(p, fmt.Sprintf("ffile %s %s %s %s %s %s", strings.Join(s.media, ","), s.delim, b01(s.free), b01(s.flagSOM), b01(s.largeMd), b01(s.sr)))
+	enc := s.enc
+	if enc == "" {
+		enc = "-"
+	}
+	p = append(p, fmt.Sprintf("ffile %s %s %s %s %s %s %s %d %s", strings.Join(s.media, ","), s.delim, b01(s.free), b01(s.flagSOM), b01(s.largeMd), b01(s.sr), b01(s.sidxLg), s.sidxPad, enc))
 	for _, sg := range s.segs {
 		var fs []string
 		for _, f := range sg {
@@ -56,6 +65,12 @@ func parseFF(req string) *ffSpec {
 	if len(f0) >= 7 {
 		s.largeMd, s.sr = f0[5] == "1", f0[6] == "1"
 	}
+	if len(f0) >= 9 {
+		s.sidxLg, s.sidxPad = f0[7] == "1", atoi(f0[8])
+	}
+	if len(f0) >= 10 && len(f0[9]) == len(s.media) {
+		s.enc = f0[9]
+	}
 	for _, sp := range parts[1:] {
 		var sg []ffFrag
 		for _, fp := range strings.Split(sp, " ; ") {
@@ -73,14 +88,17 @@ func parseFF(req string) *ffSpec {
 }
 
 type ffBuilt struct {
-	bytes    []byte
-	initLen  int
-	segStart []int   // byte offset of the first byte of each segment
-	segSize  []int
-	moofPos  [][]int // per segment per fragment
-	refDur   []uint64
-	refEPT   uint64 // presentation time of the first sample of the reference track
-	mediaEnd int
+	bytes      []byte
+	initLen    int
+	segStart   []int // byte offset of the first byte of each segment
+	segSize    []int
+	moofPos    [][]int // per segment per fragment
+	refDur     []uint64
+	refEPT     uint64 // presentation time of the first sample of the reference track
+	mediaEnd   int
+	sidxPos    int // byte offset and size of the top-level sidx written by the generator (size 0: none)
+	sidxSize   int
+	fragRefDur [][]uint64 // per segment per fragment: summed durations of the reference track's samples
 }
 
 func box(typ string, payload []byte) []byte {
@@ -141,7 +159,9 @@ func buildFF(s *ffSpec) (*ffBuilt, error) {
 			sb.b = append(sb.b, box("styp", []byte("msdh\x00\x00\x00\x00msdhmsix"))...)
 		}
 		var dur uint64
+		var frd []uint64
 		for _, fr := range sg {
+			var fdur uint64
 			if fr.emsg {
 				var eb bytes.Buffer
 				e := &mp4.EmsgBox{Version: 1, TimeScale: 90000, PresentationTime: 5, EventDuration: 9, ID: seq, SchemeIDURI: "urn:y", Value: "1", MessageData: []byte{7, 7}}
@@ -164,9 +184,16 @@ func buildFF(s *ffSpec) (*ffBuilt, error) {
 						firstRef = false
 					}
 					dur += uint64(o.dur)
+					fdur += uint64(o.dur)
 				}
 				next[o.track] += uint64(o.dur)
 				cnt[o.track]++
+			}
+			frd = append(frd, fdur)
+			if s.enc != "" {
+				if err := addEncBoxes(s, f, fr); err != nil {
+					return nil, err
+				}
 			}
 			if s.largeMd {
 				f.Mdat.LargeSize = true
@@ -179,6 +206,7 @@ func buildFF(s *ffSpec) (*ffBuilt, error) {
 			sb.b = append(sb.b, fb.Bytes()...)
 		}
 		out.refDur = append(out.refDur, dur)
+		out.fragRefDur = append(out.fragRefDur, frd)
 		segs = append(segs, sb)
 	}
 	file := cp(ib.Bytes())
@@ -207,7 +235,20 @@ func buildFF(s *ffSpec) (*ffBuilt, error) {
 			pl = binary.BigEndian.AppendUint32(pl, uint32(out.refDur[i]))
 			pl = binary.BigEndian.AppendUint32(pl, 0x90000000)
 		}
-		file = append(file, box("sidx", pl)...)
+		// the box may occupy more bytes than its minimal encoding: trailing bytes after the last reference
+		// and/or the 64-bit size form of the header; references still count from the first byte after the box
+		for k := 0; k < s.sidxPad; k++ {
+			pl = append(pl, byte(0x11*k))
+		}
+		out.sidxPos = len(file)
+		if s.sidxLg {
+			hd := []byte{0, 0, 0, 1, 's', 'i', 'd', 'x'}
+			hd = binary.BigEndian.AppendUint64(hd, uint64(16+len(pl)))
+			file = append(file, append(hd, pl...)...)
+		} else {
+			file = append(file, box("sidx", pl)...)
+		}
+		out.sidxSize = len(file) - out.sidxPos
 		if s.free {
 			file = append(file, box("free", []byte{1, 2, 3, 4, 5})...)
 		}
@@ -309,6 +350,39 @@ func execC12(req string) string {
 		}
 		return out
 	}
+	if strings.HasPrefix(req, "addsidx ") { // addsidx <removeEnc><nzEPT><startSegOnMoof> | ffile ...
+		var out string
+		p := safe(func() {
+			o := strings.Fields(req)[1]
+			s := parseFF(req[strings.Index(req, "ffile "):])
+			b, err := buildFF(s)
+			if err != nil || len(o) != 3 {
+				out = "build-err"
+				return
+			}
+			tr, ob, err := runAddSidx(b.bytes, o[0] == '1', o[1] == '1', o[2] == '1')
+			if tr.exit != 0 {
+				out = "fail " + failureClass(tr)
+				return
+			}
+			if err != nil {
+				out = "no-output"
+				return
+			}
+			var t []string
+			for _, x := range topLevelBoxes(ob) {
+				t = append(t, fmt.Sprintf("%s:%d", x.typ, x.size))
+				if x.typ == "sidx" {
+					t = append(t, hx(ob[x.start:x.start+x.size]))
+				}
+			}
+			out = "ok " + strings.Join(t, " ")
+		})
+		if p != "" {
+			return p
+		}
+		return out
+	}
 	var out string
 	p := safe(func() {
 		s := parseFF(req)
@@ -396,12 +470,29 @@ func genFF(c *Ctx) *ffSpec {
 		}
 		s.segs = append(s.segs, sg)
 	}
+	// the sidx box itself may be larger than its minimal encoding (64-bit size header, trailing bytes)
+	if s.delim == "sidx0" || s.delim == "sidx1" {
+		s.sidxLg = r.Intn(4) == 0
+		if r.Intn(4) == 0 {
+			s.sidxPad = 1 + r.Intn(12)
+		}
+	}
 	return s
 }
 
 func genC12(c *Ctx) {
 	for it := 0; it < c.N(600, 12000); it++ {
 		s := genFF(c)
+		if it < 24 {
+			// boundary members of the family "sidx-delimited file": every combination of sidx version, header
+			// form, trailing bytes, free box behind it, and decoder, on an otherwise random layout
+			s.delim = []string{"sidx0", "sidx1"}[it%2]
+			s.sidxLg = []bool{true, false, true}[it/2%3]
+			s.sidxPad = []int{0, 4, 8}[it/2%3]
+			s.sr = it/6%2 == 1
+			s.free = it/12%2 == 1
+			s.flagSOM = false
+		}
 		req := s.line()
 		key := ""
 		if len(s.segs) >= 2 {
@@ -488,7 +579,24 @@ func genC12(c *Ctx) {
 					idx := bytes.Index(want, box("free", []byte{1, 2, 3, 4, 5}))
 					want = append(cp(want[:idx]), want[idx+13:]...)
 				}
-				if !bytes.Equal(eb.Bytes(), want) {
+				if s.sidxLg || s.sidxPad > 0 {
+					// a sidx that occupies more bytes than its minimal encoding is neither an init box nor a fragment:
+					// the init boxes in front of it and every fragment behind it must come out byte-identically and
+					// in order, with exactly one sidx box (in whatever encoding) in between
+					pre, post, got := b.bytes[:b.sidxPos], b.bytes[b.segStart[0]:b.mediaEnd], eb.Bytes()
+					okMid := false
+					if len(got) >= len(pre)+len(post)+8 && bytes.HasPrefix(got, pre) && bytes.HasSuffix(got, post) {
+						mid := got[len(pre) : len(got)-len(post)]
+						sz := uint64(binary.BigEndian.Uint32(mid))
+						if sz == 1 && len(mid) >= 16 {
+							sz = binary.BigEndian.Uint64(mid[8:])
+						}
+						okMid = string(mid[4:8]) == "sidx" && sz == uint64(len(mid))
+					}
+					if !okMid {
+						fail("segment-identity", "segment-mode re-encoding does not reproduce the init and every fragment byte-identically and in order (around a non-minimal sidx)", fmt.Sprintf("len %d", len(got)), fmt.Sprintf("init %d bytes + one sidx + fragments %d bytes", len(pre), len(post)))
+					}
+				} else if !bytes.Equal(eb.Bytes(), want) {
 					fail("segment-identity", "segment-mode re-encoding does not reproduce the init and every fragment byte-identically and in order", fmt.Sprintf("len %d", eb.Len()), fmt.Sprintf("len %d", len(want)))
 				}
 			}
@@ -517,6 +625,7 @@ func genC12(c *Ctx) {
 			fail("panic", "panic: "+p, p, "")
 		}
 	}
+	genAddSidx(c)
 }
 
 // independent check of the written index against the written media
@@ -632,5 +741,401 @@ func checkSidxTiling(c *Ctx, req string, s *ffSpec, b *ffBuilt, out []byte, nonZ
 	}
 	if ept != wantEPT {
 		fail("sidx-ept", "earliest presentation time wrong", fmt.Sprint(ept), fmt.Sprint(wantEPT))
+	}
+}
+
+// ---------- trafs that really carry sample encryption boxes
+
+// addEncBoxes gives the trafs of the tracks marked in s.enc the sample auxiliary information boxes of a protected
+// track: saiz + saio + senc (8-byte IVs, optionally one sub-sample entry per sample) or a PIFF uuid-senc box.
+// The init segment stays clear ("clear content with left-over encryption boxes", the documented input of
+// add-sidx -removeEnc), so the decoder carries the boxes along unparsed.
+func addEncBoxes(s *ffSpec, f *mp4.Fragment, fr ffFrag) error {
+	seq := f.Moof.Mfhd.SequenceNumber
+	for ti := range s.media {
+		kind := s.enc[ti]
+		if kind == '-' {
+			continue
+		}
+		var sizes []uint32
+		for _, o := range fr.ops {
+			if o.track == ti+1 {
+				sizes = append(sizes, o.size)
+			}
+		}
+		if len(sizes) == 0 {
+			continue
+		}
+		var traf *mp4.TrafBox
+		for _, t := range f.Moof.Trafs {
+			if int(t.Tfhd.TrackID) == ti+1 {
+				traf = t
+			}
+		}
+		if traf == nil {
+			return fmt.Errorf("no traf for track %d", ti+1)
+		}
+		iv := func(k int) []byte {
+			return []byte{byte(ti + 1), byte(seq >> 8), byte(seq), byte(k), 0xa5, 0x5a, byte(k * 7), 1}
+		}
+		switch kind {
+		case 'c', 's':
+			saiz, saio, senc := mp4.NewSaizBox(len(sizes)), mp4.NewSaioBox(), mp4.NewSencBox(len(sizes), len(sizes))
+			for k, sz := range sizes {
+				var pat []mp4.SubSamplePattern
+				if kind == 's' {
+					clear := uint32(3)
+					if sz < clear {
+						clear = sz
+					}
+					pat = []mp4.SubSamplePattern{{BytesOfClearData: uint16(clear), BytesOfProtectedData: sz - clear}}
+				}
+				if err := senc.AddSample(mp4.SencSample{IV: iv(k), SubSamples: pat}); err != nil {
+					return err
+				}
+				saiz.AddSampleInfo(iv(k), pat)
+			}
+			for _, bx := range []mp4.Box{saiz, saio, senc} {
+				if err := traf.AddChild(bx); err != nil {
+					return err
+				}
+			}
+		case 'u':
+			pl, _ := unhx("a2394f525a9b4f14a2446c427c648df4")
+			pl = append(pl, 0, 0, 0, 0)
+			pl = binary.BigEndian.AppendUint32(pl, uint32(len(sizes)))
+			for k := range sizes {
+				pl = append(pl, iv(k)...)
+			}
+			bx, err := mp4.DecodeBox(0, bytes.NewReader(box("uuid", pl)))
+			if err != nil {
+				return err
+			}
+			if err := traf.AddChild(bx); err != nil {
+				return err
+			}
+		default:
+			return fmt.Errorf("bad enc kind %q", kind)
+		}
+	}
+	// saio: offset of the first IV relative to the first byte of the moof
+	off := uint64(8)
+	for _, ch := range f.Moof.Children {
+		if traf, ok := ch.(*mp4.TrafBox); ok && traf.Saio != nil {
+			toff := off + 8
+			for _, tc := range traf.Children {
+				if tc.Type() == "senc" {
+					traf.Saio.SetOffset(int64(toff + 16))
+				}
+				toff += tc.Size()
+			}
+		}
+		off += ch.Size()
+	}
+	return nil
+}
+
+// ---------- examples/add-sidx (property anchor): UpdateSidx applied to files on disk, with the tool's options
+
+type addSidxJob struct {
+	s           *ffSpec
+	b           *ffBuilt
+	rm, nz, som bool
+	req         string
+	tr          toolResult
+	out         []byte
+	err         error
+}
+
+func addSidxLine(s *ffSpec, rm, nz, som bool) string {
+	return fmt.Sprintf("addsidx %s%s%s | %s", b01(rm), b01(nz), b01(som), s.line())
+}
+
+// runAddSidx writes the input, runs `add-sidx [options] in.mp4 out.mp4` and reads the written file.
+func runAddSidx(in []byte, rm, nz, som bool) (toolResult, []byte, error) {
+	dir, done := scratchDir("as")
+	defer done()
+	inP, outP := filepath.Join(dir, "in.mp4"), filepath.Join(dir, "out.mp4")
+	if err := os.WriteFile(inP, in, 0o644); err != nil {
+		return toolResult{exit: -1, stderr: err.Error()}, nil, nil
+	}
+	var args []string
+	if rm {
+		args = append(args, "-removeEnc")
+	}
+	if nz {
+		args = append(args, "-nzEPT")
+	}
+	if som {
+		args = append(args, "-startSegOnMoof")
+	}
+	tr := runTool("add-sidx", dir, append(args, inP, outP)...)
+	if tr.exit != 0 {
+		return tr, nil, nil
+	}
+	out, err := os.ReadFile(outP)
+	return tr, out, err
+}
+
+type toolSeg struct {
+	firstBox int    // ordinal, among the top-level media boxes (styp, emsg, moof, mdat), of the segment's first box
+	dur      uint64 // summed sample durations of the reference track
+}
+
+// addSidxSegments: the segments of the generated file as the tool's documentation defines them ("identified by styp
+// boxes if they exist, otherwise by the start of moof or emsg boxes", every moof with -startSegOnMoof; an existing
+// top-level sidx delimits as in the library), as ordinals of top-level media boxes so that they can be located in
+// the written file whatever happens to the box sizes. ok=false: combination without a defined partition.
+func addSidxSegments(s *ffSpec, b *ffBuilt, som bool) (segs []toolSeg, nBoxes int, ok bool) {
+	sidx := s.delim == "sidx0" || s.delim == "sidx1"
+	if som && s.delim == "styp" {
+		return nil, 0, false // two kinds of delimiters at once: styp-only segments without fragments
+	}
+	perFrag := som && !sidx
+	ord := 0
+	for si, sg := range s.segs {
+		segOrd := -1
+		if s.delim == "styp" {
+			segOrd = ord
+			ord++
+		}
+		for fi, fr := range sg {
+			first := ord
+			if fr.emsg {
+				ord++
+			}
+			ord += 2
+			if perFrag {
+				segs = append(segs, toolSeg{first, b.fragRefDur[si][fi]})
+			} else if segOrd < 0 {
+				segOrd = first
+			}
+		}
+		if !perFrag {
+			segs = append(segs, toolSeg{segOrd, b.refDur[si]})
+		}
+	}
+	if !perFrag && !sidx && s.delim != "styp" {
+		all := toolSeg{firstBox: 0}
+		for _, x := range segs {
+			all.dur += x.dur
+		}
+		segs = []toolSeg{all}
+	}
+	return segs, ord, true
+}
+
+func isMediaBox(t string) bool { return t == "styp" || t == "emsg" || t == "moof" || t == "mdat" }
+
+func topLevelBoxes(d []byte) []rawBox {
+	var bx, top []rawBox
+	walkBoxes(d, 0, "", &bx)
+	for _, x := range bx {
+		if strings.Count(x.path, "/") == 1 {
+			top = append(top, x)
+		}
+	}
+	return top
+}
+
+// checkAddSidx: the written index against the written media, from the bytes of the output file alone.
+func checkAddSidx(c *Ctx, j *addSidxJob) {
+	fail := func(kind, what, got, exp string) { c.Fail("C12-addsidx-"+kind, what, j.req, clip(got), clip(exp)) }
+	opt := fmt.Sprintf("removeEnc=%v startSegOnMoof=%v", j.rm, j.som)
+	if j.tr.exit != 0 {
+		c.Eval("")
+		c.Count("add-sidx tool-failure: " + failureClass(j.tr))
+		noteFirst(c, "add-sidx tool-failure: "+failureClass(j.tr), j.req)
+		return
+	}
+	if j.err != nil {
+		c.Eval("")
+		fail("output-missing", "the tool succeeded but its output file cannot be read", j.err.Error(), "")
+		return
+	}
+	segs, nBoxes, ok := addSidxSegments(j.s, j.b, j.som)
+	if !ok {
+		c.Eval("")
+		c.Count("add-sidx skipped: styp and -startSegOnMoof together")
+		return
+	}
+	c.Eval(j.req)
+	c.Count("add-sidx outcome: success " + opt)
+	c.Count(fmt.Sprintf("add-sidx input: delim=%s encBoxes=%v segments<=%d", j.s.delim, strings.Trim(j.s.enc, "-") != "", bucket(len(segs), []int{1, 2, 5, 30})))
+	in, out := j.b.bytes, j.out
+	var inMedia, outMedia []rawBox
+	for _, x := range topLevelBoxes(in[:j.b.mediaEnd]) {
+		if isMediaBox(x.typ) {
+			inMedia = append(inMedia, x)
+		}
+	}
+	var sidx *rawBox
+	nSidx := 0
+	outTop := topLevelBoxes(out)
+	for i, x := range outTop {
+		if isMediaBox(x.typ) {
+			outMedia = append(outMedia, x)
+		}
+		if x.typ == "sidx" {
+			nSidx++
+			if sidx == nil {
+				sidx = &outTop[i]
+			}
+		}
+	}
+	if n := len(outTop); n == 0 || outTop[n-1].start+outTop[n-1].size != len(out) {
+		fail("output-boxes", "the written file is not a sequence of complete top-level boxes", fmt.Sprint(len(out)), "")
+		return
+	}
+	if len(inMedia) != nBoxes {
+		fail("harness", "harness: media box count of the generated input differs from its specification", fmt.Sprint(len(inMedia)), fmt.Sprint(nBoxes))
+		return
+	}
+	// every fragment is written, in order; without -removeEnc byte-identically, with it at least the media data
+	seq := func(l []rawBox) string {
+		var t []string
+		for _, x := range l {
+			t = append(t, x.typ)
+		}
+		return strings.Join(t, " ")
+	}
+	if seq(inMedia) != seq(outMedia) {
+		fail("media-boxes", "the written file does not carry the input's segment boxes in order", seq(outMedia), seq(inMedia))
+		return
+	}
+	if len(outMedia) == 0 || !bytes.Equal(out[:j.b.initLen], in[:j.b.initLen]) {
+		fail("identity", "the init boxes are not written byte-identically", "", "")
+		return
+	}
+	for k := range inMedia {
+		a, o := inMedia[k], outMedia[k]
+		if (!j.rm || a.typ != "moof") && !bytes.Equal(in[a.start:a.start+a.size], out[o.start:o.start+o.size]) {
+			fail("identity", fmt.Sprintf("media box %d (%s) is not written byte-identically (%s)", k, a.typ, opt), fmt.Sprintf("len %d", o.size), fmt.Sprintf("len %d", a.size))
+			return
+		}
+	}
+	if sidx == nil || nSidx != 1 || sidx.start+sidx.size > outMedia[0].start {
+		fail("sidx-missing", "not exactly one top-level sidx in front of the media in the written file", fmt.Sprint(nSidx), "1")
+		return
+	}
+	mediaEnd := outMedia[len(outMedia)-1].start + outMedia[len(outMedia)-1].size
+	d := out[sidx.start+sidx.hl : sidx.start+sidx.size]
+	if len(d) < 24 {
+		fail("sidx-short", "written sidx too short", fmt.Sprint(len(d)), "")
+		return
+	}
+	ver := d[0]
+	p := 12
+	var ept, firstOff uint64
+	if ver == 0 {
+		ept, firstOff = uint64(binary.BigEndian.Uint32(d[p:])), uint64(binary.BigEndian.Uint32(d[p+4:]))
+		p += 8
+	} else {
+		if len(d) < 32 {
+			fail("sidx-short", "written sidx too short", fmt.Sprint(len(d)), "")
+			return
+		}
+		ept, firstOff = binary.BigEndian.Uint64(d[p:]), binary.BigEndian.Uint64(d[p+8:])
+		p += 16
+	}
+	n := int(binary.BigEndian.Uint16(d[p+2:]))
+	p += 4
+	if len(d) < p+12*n {
+		fail("sidx-short", "written sidx shorter than its reference count demands", fmt.Sprint(len(d)), fmt.Sprint(p+12*n))
+		return
+	}
+	if n != len(segs) {
+		fail("sidx-count", "number of sidx references != number of segments ("+opt+")", fmt.Sprint(n), fmt.Sprint(len(segs)))
+		return
+	}
+	off := sidx.start + sidx.size + int(firstOff)
+	for i := 0; i < n; i++ {
+		sz := int(binary.BigEndian.Uint32(d[p:]) & 0x7fffffff)
+		dur := uint64(binary.BigEndian.Uint32(d[p+4:]))
+		p += 12
+		start := outMedia[segs[i].firstBox].start
+		end := mediaEnd
+		if i+1 < n {
+			end = outMedia[segs[i+1].firstBox].start
+		}
+		if off != start {
+			fail("sidx-offset", fmt.Sprintf("sidx reference %d of %d does not start at the first byte of its segment in the written file (%s)", i, n, opt), fmt.Sprint(off), fmt.Sprint(start))
+			return
+		}
+		if sz != end-start {
+			fail("sidx-size", fmt.Sprintf("sidx reference %d of %d: size != size of its segment in the written file (%s)", i, n, opt), fmt.Sprint(sz), fmt.Sprint(end-start))
+			return
+		}
+		if dur != segs[i].dur {
+			fail("sidx-duration", fmt.Sprintf("sidx reference %d duration != summed sample durations of the reference track (%s)", i, opt), fmt.Sprint(dur), fmt.Sprint(segs[i].dur))
+		}
+		off += sz
+	}
+	if off != mediaEnd {
+		fail("sidx-end", "sidx references do not end at the end of the written media ("+opt+")", fmt.Sprint(off), fmt.Sprint(mediaEnd))
+	}
+	wantEPT := uint64(0)
+	if j.nz {
+		wantEPT = j.b.refEPT
+	}
+	if ept != wantEPT {
+		fail("sidx-ept", "earliest presentation time wrong", fmt.Sprint(ept), fmt.Sprint(wantEPT))
+	}
+}
+
+// genAddSidx: generated fragmented files (the family of genFF, a share of them with encryption boxes in the trafs
+// of some or all tracks) x the tool's options.
+func genAddSidx(c *Ctx) {
+	if _, err := os.Stat(toolPath("add-sidx")); err != nil {
+		c.Note("tool binary missing: " + toolPath("add-sidx") + " (set VERIF_BUILD; package ./examples/add-sidx)")
+		c.Fail("C12-tool-missing", "the built add-sidx binary was not found", toolPath("add-sidx"), err.Error(), "")
+		return
+	}
+	scratchRoot = absScratch(c, "c12work")
+	defer os.RemoveAll(scratchRoot)
+	r := c.R
+	var jobs []*addSidxJob
+	for it := 0; it < c.N(160, 2500); it++ {
+		s := genFF(c)
+		if s.delim == "mfra" {
+			s.delim = "none" // the tool does not decode with the ISM flag: a trailing mfra box is no delimiter
+		}
+		s.sr, s.flagSOM = false, false
+		if r.Intn(4) > 0 {
+			e := make([]byte, len(s.media))
+			for i := range e {
+				e[i] = "-ccsu"[r.Intn(5)]
+			}
+			if strings.Trim(string(e), "-") == "" {
+				e[r.Intn(len(e))] = "csu"[r.Intn(3)]
+			}
+			s.enc = string(e)
+		}
+		b, err := buildFF(s)
+		if err != nil {
+			c.Fail("C12-build", "cannot build file", s.line(), err.Error(), "")
+			continue
+		}
+		hasEnc := s.enc != ""
+		for k := 0; k < 2; k++ {
+			j := &addSidxJob{s: s, b: b, nz: r.Intn(2) == 0, som: r.Intn(3) == 0 && s.delim != "styp"}
+			if hasEnc {
+				j.rm = k == 0 || r.Intn(2) == 0
+			} else {
+				j.rm = r.Intn(4) == 0
+			}
+			j.req = addSidxLine(s, j.rm, j.nz, j.som)
+			jobs = append(jobs, j)
+		}
+	}
+	parallelDo(len(jobs), func(i int) {
+		j := jobs[i]
+		j.tr, j.out, j.err = runAddSidx(j.b.bytes, j.rm, j.nz, j.som)
+	})
+	for _, j := range jobs {
+		checkAddSidx(c, j)
+		if len(c.St.Samples) < 5 && j.tr.exit == 0 {
+			c.Sample(j.req)
+		}
 	}
 }
